@@ -258,7 +258,8 @@ class Driver(SystemWideDevice):
         if wait_ms > 0:
             self.debug_log("Delaying enable by %sms pulse_ms: %sms (%s pulse_power %s hold_power)",
                            wait_ms, pulse_ms, pulse_power, hold_power)
-            self.delay.add(wait_ms, self._enable_now, pulse_ms=pulse_ms, pulse_power=pulse_power, hold_power=hold_power)
+            self.delay.reset(name="postponed_enable", ms=wait_ms, callback=self._enable_now,
+                             pulse_ms=pulse_ms, pulse_power=pulse_power, hold_power=hold_power)
         else:
             self._enable_now(pulse_ms, pulse_power, hold_power)
 
@@ -293,6 +294,8 @@ class Driver(SystemWideDevice):
         self.info_log("Disabling Driver")
         self.hw_driver.disable()
         self.delay.remove("enable_limit_reached")
+        # an enable which the PSU postponed must not switch the driver on after it has been disabled
+        self.delay.remove("postponed_enable")
         # inform bcp clients
         self.machine.bcp.interface.send_driver_event(action="disable", name=self.name, number=self.config['number'])
 
